@@ -235,6 +235,8 @@ def run(ck):
     fails = []; broken = []; nontriv = 0; dist = {}; lines = []; idx = []; parsed = {}
     for i, (c, o) in enumerate(zip(cases, outs)):
         dist[c["kind"]] = dist.get(c["kind"], 0) + 1
+        if o is not None and o.startswith("FATAL PREMERGE"):
+            continue          # the preparation of the tissue (edge merges before the phase) failed: not a case
         if o is None or o.startswith("FATAL"):
             fails.append((i, "contact_phase_completes", "the contact phase died (%s)" % (cinfo.get(i, o or "")[-300:].replace("\n", " ")))); continue
         sec = o.split(" # ")
